@@ -34,6 +34,7 @@ def run(ctx):
     validate_before(ctx, mod, fns)
     error_discipline(ctx, mod, fns)
     siblings(ctx, mod, fns, I)
+    terse_schema(ctx, I)
     substitution(ctx, mod, fns)
     yaml_emission(ctx, mod, fns, I)
     validator_table(ctx, I)
@@ -86,6 +87,44 @@ def validator_table(ctx, I):
         r = run(sc)
         ctx.ob("C16.validator", f"fault:{name}", r is False, f"validator returned {r!r} for a schema with the fault '{name}' (must be False)", loc)
     ctx.floor("C16.validator", 15)
+
+
+def terse_schema(ctx, I):
+    """parse_scsv_schema interpreted on a table of terse specifications (the documented example, every type letter, optional fill/unit,
+    malformed strings): the result is the documented schema dictionary and passes the validator's format rules; malformed input raises SCSVError."""
+    from ..interp import RaiseSig
+    dotted = "pydrex.io.parse_scsv_schema"
+    try:
+        f = I.resolve(dotted)
+    except Exception:
+        ctx.observe("parse_scsv_schema is not defined (Python < 3.12): terse schemas are not available")
+        return
+    loc = defloc(ctx, dotted)
+    ctx.rule("C16.terse", "parse_scsv_schema(terse) == documented schema dictionary for every type letter, default/explicit fill and unit; malformed strings raise SCSVError")
+    dflt_fill = I.resolve("pydrex.io._SCSV_DEFAULT_FILL")
+    good = {
+        "d,m-:colA(s)colB(s:N/A:...)colC()colD(i:999999)colE(f:NaN:%)": {"delimiter": ",", "missing": "-", "fields": [
+            {"name": "colA", "type": "string", "fill": dflt_fill}, {"name": "colB", "type": "string", "fill": "N/A", "unit": "..."},
+            {"name": "colC", "type": "string", "fill": dflt_fill}, {"name": "colD", "type": "integer", "fill": "999999"},
+            {"name": "colE", "type": "float", "fill": "NaN", "unit": "%"}]},
+        "d;mNA:x(b)y(c:NaN)z(f:0:m/s)": {"delimiter": ";", "missing": "NA", "fields": [
+            {"name": "x", "type": "boolean", "fill": dflt_fill}, {"name": "y", "type": "complex", "fill": "NaN"}, {"name": "z", "type": "float", "fill": "0", "unit": "m/s"}]},
+        "d\tm-:only(i:-1)": {"delimiter": "\t", "missing": "-", "fields": [{"name": "only", "type": "integer", "fill": "-1"}]},
+    }
+    for terse, want in good.items():
+        try:
+            got = I.call(f, (terse,))
+            ctx.ob("C16.terse", f"{terse!r}", got == want, f"got {got!r}, documented {want!r}"[:300], loc)
+        except RaiseSig as r:
+            ctx.ob("C16.terse", f"{terse!r}", False, f"raises {r.exc.typename}", loc)
+    for terse, why in (("x,m-:a(s)", "no leading d"), ("d,m-:", "no fields"), ("d,m-:a(q)", "unknown type letter"), ("d,:a(s)", "no missing-marker part"),
+                       ("d,m-a(s)", "no colon before the fields")):
+        try:
+            got = I.call(f, (terse,))
+            ctx.ob("C16.terse", f"malformed ({why})", False, f"accepted, returned {got!r}"[:200], loc)
+        except RaiseSig as r:
+            ctx.ob("C16.terse", f"malformed ({why})", r.exc.typename == "SCSVError", f"raises {r.exc.typename}", loc)
+    ctx.floor("C16.terse", 8)
 
 
 def cell_parser(ctx, I):
